@@ -686,8 +686,17 @@ async fn pc_modes(run: &mut Run) {
     for (mode, name) in [(TransportMode::WebRtc, "webrtc"), (TransportMode::Srtp, "srtp"), (TransportMode::Rtp, "rtp")] {
         for video in [false, true] {
             let case = format!("mode {name} {}", if video { "audio+video" } else { "audio" });
-            let fut = async { if name == "srtp" { answer_sdes_offer(video).await } else { connect_pair(mode.clone(), video).await } };
-            match tokio::time::timeout(std::time::Duration::from_secs(30), fut).await {
+            // (connection set-up occasionally fails for reasons outside C14 — retried, then skipped and counted)
+            let mut res = Err(());
+            for _attempt in 0..4 {
+                let fut = async { if name == "srtp" { answer_sdes_offer(video).await } else { connect_pair(mode.clone(), video).await } };
+                match tokio::time::timeout(std::time::Duration::from_secs(30), fut).await {
+                    Ok(Ok(f)) => { res = Ok(Ok(f)); break; }
+                    Ok(Err(e)) => { run.count("pc_connect_attempt_failed"); res = Ok(Err(e)); }
+                    Err(_) => { run.count("pc_connect_attempt_timeout"); res = Err(()); }
+                }
+            }
+            match res {
                 Ok(Ok(flags)) if !flags.is_empty() => {
                     let mut d: Vec<u8> = flags.iter().map(|f| *f as u8).collect();
                     d.sort(); d.dedup();
@@ -699,7 +708,7 @@ async fn pc_modes(run: &mut Run) {
                 }
                 Ok(Ok(_)) => run.count("pc_no_transport_created"),
                 Ok(Err(e)) => { run.count("pc_connect_failed"); run.notes.insert(format!("pc_connect_error_{name}_{}", video as u8), serde_json::json!(e.to_string())); }
-                Err(_) => run.count("pc_connect_timeout"),
+                Err(()) => run.count("pc_connect_timeout"),
             }
         }
     }
